@@ -172,6 +172,30 @@ func CreatorRuntime() []byte {
 	return append(b, child...)
 }
 
+// CreateThenFailRuntime: creates a child (counter), stores its address, then fails: with REVERT (how = "REVERT"), with an
+// invalid opcode ("INVALID"), or only if called with value ("0 0 REVERT" after CALLVALUE test is left to the caller).
+// Nothing of the creation may survive - in the EVM's world or in the native ledger.
+func CreateThenFailRuntime(how string) []byte {
+	child := Deployer(Asm(Programs["counter"], nil), 5)
+	body := func(off int) []byte {
+		tail := "0 0 REVERT"
+		if how == "INVALID" {
+			tail = "INVALID"
+		}
+		return Asm(fmt.Sprintf("%d 0x%04x 0 CODECOPY %d 0 0 CREATE 0 SSTORE %s", len(child), off, len(child), tail), nil)
+	}
+	b := body(0)
+	for i := 0; i < 3; i++ {
+		b2 := body(len(b))
+		if len(b2) == len(b) {
+			b = b2
+			break
+		}
+		b = b2
+	}
+	return append(b, child...)
+}
+
 // PrefundCreatorRuntime: forwards the call value to the address given in calldata[0:32] (the harness passes the address
 // the next CREATE of this contract will produce), then creates a child (counter) there without value and stores its
 // address: the child must own what was sent to its address earlier in the same transaction.
